@@ -163,6 +163,11 @@ func NumberOfInducedPaths(g Graph, maxLength int) []int {
 
 				options := sortints.SetMinus(h.Neighbours(p.p[len(p.p)-1]), p.bannedNeighbours)
 
+				if p.length >= maxLength {
+					//The paths which extend p are longer than maxLength.
+					continue
+				}
+
 				r[p.length+1] += len(options)
 
 				if p.length >= maxLength-1 {
